@@ -158,6 +158,21 @@ def prop(case):
     except GfapyError:
         return {"nt": False, "unbuildable": True}
     line = gfapy.Line(text, version=version, vlevel=vlevel)
+    pre = case.get("pre")
+    if pre is not None:
+        # the tag existed before with another value (and datatype) and was deleted:
+        # nothing of it may survive
+        try:
+            if case["via"] == "attr":
+                setattr(line, name, build_value(pre))
+            else:
+                line.set(name, build_value(pre))
+            if case.get("pre_delete", "delete") == "delete":
+                line.delete(name)
+            else:
+                line.set(name, None)
+        except Exception as e:
+            raise Violation("pre-step", "set/delete of a valid value raised %s: %s" % (type(e).__name__, str(e)[:200]), type(e).__name__)
     dt = declared or expected_default(spec)
     verdict = classify(spec, dt) if dt else None
     if verdict is None:
@@ -215,6 +230,8 @@ def prop(case):
         if not values_equal(dt, spec, here) and not (here == value):
             raise Violation("get-after-set", "%s: get returns %r" % (ctx, here), dt)
     else:
+        if raised_at_set is None and vlevel >= 3:
+            raise Violation("invalid-not-reported-at-set", "%s: the assignment at vlevel 3 raised nothing" % ctx, dt)
         if raised_at_set is None:
             # reported by explicit validation at every level
             rep = False
@@ -290,8 +307,14 @@ def st_case(draw):
     existing = None
     if declared and gen.chance(r, 0.4):
         existing = gen.gen_tag_value(r, declared, True)
-    return {"value": spec, "name": gen.choice(r, NAMES), "declared": declared, "existing": existing,
+    case = {"value": spec, "name": gen.choice(r, NAMES), "declared": declared, "existing": existing,
             "vlevel": r.randrange(4), "via": gen.choice(r, ["set", "attr"]), "carrier": gen.choice(r, CARRIERS)}
+    if declared is None and gen.chance(r, 0.3):
+        case["pre"] = gen.choice(r, [{"kind": "int", "v": 13}, {"kind": "float", "v": 1.5}, {"kind": "str", "v": "text"},
+                                     {"kind": "json", "v": {"a": 1}}, {"kind": "intlist", "v": [1, 2], "wrap": "NumericArray"},
+                                     {"kind": "bytes", "v": "0A", "wrap": "ByteArray"}])
+        case["pre_delete"] = gen.choice(r, ["delete", "delete", "none"])
+    return case
 
 
 def parts(tier):
